@@ -58,9 +58,28 @@ func (c *Decoder) decodeCallStatement() (*ast.CallStatement, error) {
 		return nil, errors.WithStack(err)
 	}
 
-	return &ast.CallStatement{
+	stmt := &ast.CallStatement{
 		Subroutine: name,
-	}, nil
+	}
+	// Arguments are present only if an expression frame follows the name
+	if !isExpressionFrame(c.peekFrame()) {
+		return stmt, nil
+	}
+	for {
+		frame := c.nextFrame()
+		switch frame.Type() {
+		case END:
+			return stmt, nil
+		case FIN:
+			return nil, unexpectedFinByte()
+		default:
+			expr, err := c.decodeExpression(frame)
+			if err != nil {
+				return nil, errors.WithStack(err)
+			}
+			stmt.Arguments = append(stmt.Arguments, expr)
+		}
+	}
 }
 
 func (c *Decoder) decodeCaseStatement() (*ast.CaseStatement, error) {
